@@ -277,7 +277,7 @@ fn c12_reader_ops(rng: &mut Rng, keys: &[u32]) -> Vec<Op> {
             3 => Op::IterAll(IterKind::Iter),
             4 => Op::IterAll(*rng.pick(&[IterKind::Keys, IterKind::Values])),
             5 => Op::Len,
-            6 => Op::EqSelf,
+            6 => rng.pick(&[Op::EqSelf, Op::Rel(0), Op::Rel(2), Op::Rel(5), Op::Rel(6), Op::Rel(7)]).clone(),
             _ => Op::Get(k),
         });
     }
@@ -499,6 +499,7 @@ pub fn judge(prop: &str, p: &Program, r: &RunResult, opts: &ExecOpts, js: &mut J
         return out;
     }
     out.extend(oracle::basic(r, opts.panic_at.is_some()));
+    out.extend(oracle::relations(p, r));
     if p.threads.len() > crate::sched::MAXT_CLASSIC && prop == "C10" {
         js.bump("helper_crowd_runs", 1);
     } else if p.threads.len() > crate::sched::MAXT_CLASSIC {
